@@ -108,6 +108,15 @@ fn gen_keys(r: &mut Rng, kind: ColKind, n: usize, salt_zero: bool, long_keys: bo
 						let other = r.pick(&keys).clone();
 						let share = *r.pick(&[2usize, 3, 7, 8, 16]);
 						k[..share].copy_from_slice(&other[..share]);
+					} else if r.chance(1, 8) && !keys.is_empty() {
+						// same page as an existing key, the 32 bits after the page bits all zero (the part a
+						// vectorised page search compares), the two bits after them not
+						let other = r.pick(&keys).clone();
+						k[..2].copy_from_slice(&other[..2]);
+						for b in &mut k[2..6] {
+							*b = 0;
+						}
+						k[6] = *r.pick(&[0x40u8, 0x80, 0xC0]);
 					}
 					k
 				} else {
@@ -523,7 +532,10 @@ fn gen_ops(r: &mut Rng, cfg: &RunCfg, tier: Tier, big_max: u32) -> Vec<Op> {
 		reject: 0,
 	};
 	match scenario {
-		"btree" => w.iter = 40,
+		"btree" => {
+			w.iter = 40;
+			w.crash = 3;
+		},
 		"crash" | "power" => w.crash = 10,
 		"drop" => {
 			w.restart = 8;
